@@ -29,7 +29,7 @@ APP_ID = 16777251
 STATES = ["server_closed", "client_wicea", "open", "open", "open_traffic", "closing"]
 MUTATIONS = ["truncate", "msg_len", "avp_len", "avp_len", "wrong_width", "bad_enum", "bad_family", "version",
              "non_utf8", "misaddressed", "garbage", "flip", "huge_len", "dup_avp", "zero_avp", "empty", "vflag",
-             "deep_nest", "flood", "vendor_flood"]
+             "deep_nest", "flood", "vendor_flood", "typed_garbage", "typed_garbage"]
 BASES = ["cer", "cea", "dwr", "dwa", "dpr", "dpa", "app_req", "app_ans", "app_req_big"]
 
 
@@ -100,6 +100,15 @@ def mutate(spec, n, live=False):
                       len(raw), r.randrange(0, 1 << 24), r.randrange(0, 16)])
         raw[off + 5:off + 8] = max(0, v).to_bytes(3, "big")
         return bytes(raw)
+    if mut == "typed_garbage":
+        # every AVP class of the dictionary gets adversarial data of the wrong width / encoding / syntax
+        table = _dictionary_codes()
+        vendor, code = table[r.randrange(len(table))]
+        payloads = PAYLOADS + [bytes(r.getrandbits(8) for _ in range(r.randrange(1, 40)))]
+        data = payloads[r.randrange(len(payloads))]
+        flags = (C.AF_V if vendor else 0) | C.AF_M
+        avps = list(m["avps"]) + [(code, flags, vendor or None, data)]
+        return C.enc_msg(dict(m, avps=avps))
     if mut == "flood":
         # count boundary: thousands of minimal well-framed messages (header only, unknown command) back to back
         k = r.choice([70, 300, 1100, 2500])
@@ -185,6 +194,234 @@ def mutate(spec, n, live=False):
         i = r.randrange(len(raw))
         raw[i] = r.getrandbits(8)
     return bytes(raw)
+
+
+_DICT_CODES = []
+
+
+def _dictionary_codes():
+    """(vendor, code) of every AVP class bromelia's loader knows, sorted (deterministic for a given tree)."""
+    if not _DICT_CODES:
+        from bromelia.base import DiameterAVP
+        seen = set()
+        for cls in DiameterAVP.__subclasses__():
+            try:
+                code = int.from_bytes(cls.code, "big")
+                vendor = int.from_bytes(cls.vendor_id, "big") if getattr(cls, "vendor_id", None) else 0
+                seen.add((vendor, code))
+            except Exception:
+                continue
+        _DICT_CODES.extend(sorted(seen) or [(0, 264)])
+    return _DICT_CODES
+
+
+def decode_in_grandchild(blob, bound, wall=20.0):
+    """DiameterMessage.load(blob) in a forked grandchild under a plain line meter and a wall-clock watchdog
+    (a C-level hang -- e.g. a regular expression that backtracks exponentially -- never reaches a Python
+    line event and would otherwise freeze the whole run).  -> dict(status=returned|library|leak|steps|wall, ...)"""
+    import json as _json
+    import os as _os
+    import select as _select
+    import signal as _signal
+    import sys as _sys
+    rfd, wfd = _os.pipe()
+    pid = _os.fork()
+    if pid == 0:
+        try:
+            _os.close(rfd)
+            import bromelia.exceptions as E
+            from bromelia.base import DiameterMessage
+            libtypes = tuple(c for c in vars(E).values() if isinstance(c, type) and issubclass(c, BaseException))
+            root = _os.path.join(_os.environ.get("VERIF_REPO", "/repo"), "bromelia") + _os.sep
+            cnt = [0]
+
+            class _Over(BaseException):
+                pass
+
+            def ltrace(frame, event, arg):
+                if event == "line":
+                    cnt[0] += 1
+                    if cnt[0] > bound:
+                        raise _Over()
+                return ltrace
+
+            def gtrace(frame, event, arg):
+                return ltrace if frame.f_code.co_filename.startswith(root) else None
+            out = {}
+            _sys.settrace(gtrace)
+            try:
+                DiameterMessage.load(blob)
+                out["status"] = "returned"
+            except _Over:
+                out["status"] = "steps"
+            except libtypes:
+                out["status"] = "library"
+            except BaseException as e:      # noqa
+                import traceback
+                tb = traceback.extract_tb(e.__traceback__)[-1]
+                out = {"status": "leak", "type": type(e).__name__, "msg": str(e)[:160],
+                       "where": "%s:%d" % (tb.filename.split("/")[-1], tb.lineno)}
+            finally:
+                _sys.settrace(None)
+            out["steps"] = cnt[0]
+            _os.write(wfd, _json.dumps(out).encode())
+        finally:
+            _os._exit(0)
+    _os.close(wfd)
+    # watchdog on the CPU time the decoder process has consumed (robust against an overloaded machine)
+    import time as _time
+    t_start = _time.time()
+    r = []
+    while True:
+        r, _, _ = _select.select([rfd], [], [], 0.5)
+        if r:
+            break
+        try:
+            with open("/proc/%d/stat" % pid) as f:
+                parts = f.read().rsplit(")", 1)[1].split()
+            cpu = (int(parts[11]) + int(parts[12])) / float(_os.sysconf("SC_CLK_TCK"))
+        except (OSError, IndexError, ValueError):
+            cpu = 0.0
+        if cpu > wall or _time.time() - t_start > 30 * wall:
+            break
+    if not r:
+        try:
+            _os.kill(pid, _signal.SIGKILL)
+        except ProcessLookupError:
+            pass
+        _os.waitpid(pid, 0)
+        _os.close(rfd)
+        return {"status": "wall", "wall": wall}
+    data = b""
+    while True:
+        chunk = _os.read(rfd, 65536)
+        if not chunk:
+            break
+        data += chunk
+    _os.close(rfd)
+    _os.waitpid(pid, 0)
+    try:
+        return _json.loads(data.decode())
+    except ValueError:
+        return {"status": "leak", "type": "ChildDied", "msg": "decoder process died", "where": "?"}
+
+
+PAYLOADS = [b"", b"\x00", b"\xff\xfe\xfd", bytes(3), bytes(5), bytes(7), bytes(9), bytes(12),
+            b"\x00\x03" + bytes(4), b"\x00\x01" + bytes(3), b"a" * 33, b"\x80" * 16, b"\xe9t\xe9",
+            b"aaa://" + b"a" * 36 + b";transport=tls ", b"aaa://host.example.com:3868;transport=tcp;protocol=diameter",
+            b"aaa://" + b"-" * 30, b"\x00\x02" + bytes(16)]
+
+
+def typed_garbage_message(code_index, payload_index, n):
+    table = _dictionary_codes()
+    vendor, code = table[code_index % len(table)]
+    data = PAYLOADS[payload_index % len(PAYLOADS)]
+    m = base_message("app_ans", n)
+    flags = (C.AF_V if vendor else 0) | C.AF_M
+    return C.enc_msg(dict(m, avps=list(m["avps"]) + [(code, flags, vendor or None, data)]))
+
+
+def decode_many_in_grandchild(blobs, bounds, cpu_limit=20.0):
+    """Like decode_in_grandchild, for a list of inputs in ONE process: -> list of result dicts (None = not reached)."""
+    import json as _json
+    import os as _os
+    import select as _select
+    import signal as _signal
+    import sys as _sys
+    import time as _time
+    rfd, wfd = _os.pipe()
+    pid = _os.fork()
+    if pid == 0:
+        try:
+            _os.close(rfd)
+            import bromelia.exceptions as E
+            from bromelia.base import DiameterMessage
+            libtypes = tuple(c for c in vars(E).values() if isinstance(c, type) and issubclass(c, BaseException))
+            root = _os.path.join(_os.environ.get("VERIF_REPO", "/repo"), "bromelia") + _os.sep
+            cnt = [0, 0]
+
+            class _Over(BaseException):
+                pass
+
+            def ltrace(frame, event, arg):
+                if event == "line":
+                    cnt[0] += 1
+                    if cnt[0] > cnt[1]:
+                        raise _Over()
+                return ltrace
+
+            def gtrace(frame, event, arg):
+                return ltrace if frame.f_code.co_filename.startswith(root) else None
+            for i, blob in enumerate(blobs):
+                cnt[0], cnt[1] = 0, bounds[i]
+                _os.write(wfd, ("B %d\n" % i).encode())
+                out = {}
+                _sys.settrace(gtrace)
+                try:
+                    DiameterMessage.load(blob)
+                    out["status"] = "returned"
+                except _Over:
+                    out["status"] = "steps"
+                except libtypes:
+                    out["status"] = "library"
+                except BaseException as e:      # noqa
+                    import traceback
+                    tb = traceback.extract_tb(e.__traceback__)[-1]
+                    out = {"status": "leak", "type": type(e).__name__, "msg": str(e)[:160],
+                           "where": "%s:%d" % (tb.filename.split("/")[-1], tb.lineno)}
+                finally:
+                    _sys.settrace(None)
+                out["steps"] = cnt[0]
+                _os.write(wfd, ("R %d %s\n" % (i, _json.dumps(out))).encode())
+        finally:
+            _os._exit(0)
+    _os.close(wfd)
+    results = [None] * len(blobs)
+    buf = b""
+    current = [None]
+    t0 = _time.time()
+    cpu_at_begin = 0.0
+    done = False
+    while not done:
+        r, _, _ = _select.select([rfd], [], [], 0.5)
+        if r:
+            chunk = _os.read(rfd, 65536)
+            if not chunk:
+                done = True
+            buf += chunk
+            while b"\n" in buf:
+                line, buf = buf.split(b"\n", 1)
+                parts = line.decode().split(" ", 2)
+                if parts[0] == "B":
+                    current[0] = int(parts[1])
+                    cpu_at_begin = _cpu_of(pid)
+                elif parts[0] == "R":
+                    results[int(parts[1])] = _json.loads(parts[2])
+                    current[0] = None
+            continue
+        if current[0] is not None and (_cpu_of(pid) - cpu_at_begin > cpu_limit or _time.time() - t0 > 40 * cpu_limit):
+            results[current[0]] = {"status": "wall", "wall": cpu_limit}
+            break
+    try:
+        _os.kill(pid, _signal.SIGKILL)
+    except ProcessLookupError:
+        pass
+    try:
+        _os.waitpid(pid, 0)
+    except ChildProcessError:
+        pass
+    _os.close(rfd)
+    return results
+
+
+def _cpu_of(pid):
+    import os as _os
+    try:
+        with open("/proc/%d/stat" % pid) as f:
+            parts = f.read().rsplit(")", 1)[1].split()
+        return (int(parts[11]) + int(parts[12])) / float(_os.sysconf("SC_CLK_TCK"))
+    except (OSError, IndexError, ValueError):
+        return 0.0
 
 
 def step_bound(n):
@@ -298,6 +535,62 @@ class C03(Check):
         def viol(clause, sig, detail):
             violations.append({"clause": clause, "sig": "C03/%s" % sig, "detail": detail})
 
+        unsafe_live = set()     # blobs whose decoding does not terminate must not be fed to the live node
+
+        def decoder_subcheck_outside(i, blob):
+            bound = min(step_bound(len(blob)), 2_000_000)
+            r_ = decode_in_grandchild(blob, bound)
+            stt = r_.get("status")
+            if stt == "returned":
+                st["decoder"]["returned"] += 1
+            elif stt == "library":
+                st["decoder"]["library_error"] += 1
+            elif stt in ("steps", "wall"):
+                unsafe_live.add(i)
+                viol("decoding terminates within a step bound that depends only on the input's length",
+                     "decoder/hang/%s" % scn["strings"][i]["mut"],
+                     {"len": len(blob), "bound": bound, "how": "step bound exceeded" if stt == "steps" else
+                      "still running after %.0f s of CPU time without reaching the step bound (C-level loop)" % r_.get("wall", 0),
+                      "hex": blob.hex()[:200], "mutation": scn["strings"][i]})
+            else:
+                viol("decoding either returns messages or raises one of the library's own error types",
+                     "decoder/leak/%s" % (r_.get("type"),),
+                     {"len": len(blob), "error": "%s: %s" % (r_.get("type"), r_.get("msg")), "where": r_.get("where"),
+                      "hex": blob.hex()[:200], "mutation": scn["strings"][i]})
+            if len(blob) and "steps" in r_:
+                st["decoder"]["max_steps_per_byte"] = max(st["decoder"]["max_steps_per_byte"], r_["steps"] / len(blob))
+
+        for i_, b_ in enumerate(blobs):
+            if len(b_) <= 20000:
+                decoder_subcheck_outside(i_, b_)
+
+        # systematic part of the decoder sub-check: (dictionary AVP class x adversarial payload), enumerated by
+        # the run index so that one quick batch covers the whole table
+        table = _dictionary_codes()
+        npay = 17
+        total = len(table) * npay
+        per_run = scn.get("sweep_per_run", 40)
+        start = (scn.get("index", 0) * per_run) % total
+        sweep_blobs = []
+        for j in range(per_run):
+            k = (start + j) % total
+            sweep_blobs.append((k, typed_garbage_message(k // npay, k % npay, j)))
+        res = decode_many_in_grandchild([b for _, b in sweep_blobs], [min(step_bound(len(b)), 2_000_000) for _, b in sweep_blobs])
+        st["decoder"]["sweep"] = len([r_ for r_ in res if r_ is not None])
+        for (k, b), r_ in zip(sweep_blobs, res):
+            if r_ is None:
+                continue
+            vendor, code = table[k // npay]
+            where = {"avp_code": code, "vendor": vendor, "payload_index": k % npay, "hex": b.hex()[-80:]}
+            if r_["status"] in ("steps", "wall"):
+                viol("decoding terminates within a step bound that depends only on the input's length",
+                     "decoder/hang/typed-avp", dict(where, how=r_["status"]))
+                break
+            if r_["status"] == "leak":
+                viol("decoding either returns messages or raises one of the library's own error types",
+                     "decoder/leak/%s" % r_.get("type"), dict(where, error="%s: %s" % (r_.get("type"), r_.get("msg")), where=r_.get("where")))
+                break
+
         def decoder_subcheck(i, blob):
             from bromelia.base import DiameterMessage
             me = sim.cur
@@ -366,9 +659,6 @@ class C03(Check):
             from bromelia.avps import SessionIdAVP, OriginHostAVP, OriginRealmAVP, DestinationRealmAVP
             # (e) decoder sub-check, in its own simulated thread (so that a hang is cut by the meter)
             def dec():
-                for i, b in enumerate(blobs):
-                    if len(b) <= 20000:
-                        decoder_subcheck(i, b)
                 for i, sp in enumerate(scn["strings"]):
                     if sp["mut"] == "vendor_flood":
                         growth_subcheck(i, sp)
@@ -432,7 +722,7 @@ class C03(Check):
                     sim.sleep(s["gap"])
                 if s["pre_valid"]:
                     w.peer.send(C.dwr(PEER_HOST, PEER_REALM, hbh=0x7c00 + i, e2e=0x7c00 + i))
-                if blob:
+                if blob and i not in unsafe_live:
                     w.peer.send_raw(blob, label=s["mut"])
                 if s["post_valid"]:
                     w.peer.send(C.dwr(PEER_HOST, PEER_REALM, hbh=0x7d00 + i, e2e=0x7d00 + i))
@@ -463,6 +753,14 @@ class C03(Check):
                     w.peer.send(C.dpa(PEER_HOST, PEER_REALM, hbh=dprs[-1]["hbh"], e2e=dprs[-1]["e2e"]))
                     w.peer.close()
                 sim.sleep(D)
+            # whatever happened, a node that is going down gets D to finish doing so
+            def _settled():
+                if w.state() != "Closed":
+                    return False
+                return all(t.state == "done" for t in w.lib_threads()) and \
+                    all(s_.state == "closed" and not s_.selectors for s_ in w.node_socks())
+            if not pc["ok"] or w.state() == "Closed":
+                sim.wait_until(_settled, D, poll=D / 40.0)
             # ---- (a) workers survive or the connection is closed cleanly ----------------
             final = w.state()
             libs = w.lib_threads()
